@@ -144,7 +144,7 @@ anchor("psd_nperseg_frac", "n", "qats/ts.py", "TimeSeries.psd", [("callarg", r"i
 # helper `new_timearray`), and the ratio that `TimeSeries.stats` rounds to obtain the number of peaks in the statistics duration
 TSPY = "qats/ts.py"
 anchor("grid_ratio", "d t0 t1", TSPY, ["TimeSeries.get.new_timearray", "new_timearray", "TimeSeries.new_timearray"],
-       ("callarg", r"round", 0, 0), inline=[])
+       ("callarg", r"round", 0, 0))
 anchor("stats_n_ratio", "duration nmax statsdur", TSPY, "TimeSeries.stats", ("callarg", r"round", 0, 0), inline=[],
        rename={"t[-1] - t[0]": "duration", "(t[-1] - t[0])": "duration", "np.size(mx)": "nmax", "mx.size": "nmax", "len(mx)": "nmax"})
 MO = "qats/motions.py"
